@@ -137,6 +137,29 @@ let enum_s name bs =
   | None -> "NoSuchType"
   | Some r -> res_s (fun (i, v) -> string_of_n i ^ " " ^ show_value v) r
 
+let read_s chunks eof k =
+  let cs = if chunks = "-" then [] else
+    List.map (fun c -> if c = "P" then Pend else Data (unhex c)) (String.split_on_char ',' chunks) in
+  let total = List.length (flat cs) in
+  let rec go cs k acc =
+    if k = 0 then List.rev acc else
+    match read_frame_chunks cs with
+    | Some (f, rest) ->
+        go rest (k - 1) (Printf.sprintf "Ok %s consumed=%d" (hex f) (total - List.length (flat rest)) :: acc)
+    | None -> List.rev ((if eof then "Err" else "Blocked") :: acc) in
+  String.concat " | " (go cs k [])
+
+let wr_s len =
+  let w =
+    if len = 0 then (match run_enc (coq_string "zvt::packets::Ack") (VRec []) with Some (Ok b) -> b | _ -> failwith "ack")
+    else (match run_enc (coq_string "zvt::packets::PrintLine")
+                  (VRec [VInt (n_of_int 65); VStr (List.init (len - 1) (fun _ -> n_of_int 66))]) with
+          | Some (Ok b) -> b | _ -> failwith "printline") in
+  let hdr = hex (List.filteri (fun i _ -> i < 5) w) in
+  let r = read_s (hex (w @ [n_of_int 0xde; n_of_int 0xad])) true 1 in
+  let r = if String.length r > 60 then String.sub r 0 20 ^ ".." ^ String.sub r (String.length r - 30) 30 else r in
+  Printf.sprintf "wrote=%d hdr=%s %s" (List.length w) (String.sub hdr 0 (min 10 (String.length hdr))) r
+
 let () =
   let ic = if Array.length Sys.argv > 1 && Sys.argv.(1) <> "-" then open_in Sys.argv.(1) else stdin in
   let oc = if Array.length Sys.argv > 2 then open_out Sys.argv.(2) else stdout in
@@ -159,6 +182,8 @@ let () =
               let bs = List.init k (fun j -> n_of_int ((i lsr (8 * (k - 1 - j))) land 255)) in
               emit (len_de_s f.(1) (bs @ suffix))
             done
+        | "wr_range" -> for k = int_of_string f.(1) to int_of_string f.(2) do emit (wr_s k) done
+        | "read" -> emit (read_s f.(1) (f.(2) = "eof") (int_of_string f.(3)))
         | "dec_all" | "enum_all" ->
             let g = if f.(0) = "dec_all" then dec_s else enum_s in
             let prefix = unhex f.(2) in
